@@ -121,6 +121,25 @@ def check_packet(run, case):
         else:
             run.violation('build:%s:%s' % (framing, k), case, 'packet %s, reference %s' % (pkt.hex()[:120], want.hex()[:120]))
         ok = False
+    # ---- the same message object addressed to somebody else and framed again (a gateway re-targets a request, a retry after
+    # an id change): the second packet is the reference ADU for the new ids, nothing of the first build may stick
+    if ok and not regs and framing != 'tls':
+        uid2, tid2 = (uid + 1) % 248, (tid + 1) & 0xFFFF
+        try:
+            msg.unit_id, msg.transaction_id = uid2, tid2
+            fr2 = new_framer(framing, d)
+            pkt2 = fr2.buildPacket(msg)
+            want2 = ADU.build(framing, uid2, pdu, tid=tid2, pid=pid)
+            run.count('rebuild_comparisons')
+            good2 = (pkt2 == want2) if framing != 'binary' else ADU.binary_build_ok(pkt2, uid2, pdu)
+            if not good2:
+                run.violation('rebuild:%s:%s' % (framing, k), case, 'message framed for unit %d / tid %d, then for unit %d / tid %d: second packet %s, reference %s'
+                              % (uid, tid, uid2, tid2, pkt2.hex()[:100], want2.hex()[:100]))
+                ok = False
+        except Exception as e:  # noqa
+            run.violation('rebuild-raised:%s:%s' % (framing, k), case, repr(e))
+            ok = False
+        msg.unit_id, msg.transaction_id = uid, tid
     # ---- round trip through a fresh receiver, called the way the front-ends call it
     # (single omitted = the way the client transaction manager and the TLS server call it: the framer's own default)
     for single in ((None, True) if framing == 'tls' else (None, False, True)):
@@ -190,6 +209,20 @@ def checksums(run, r):
     one(b'')
     for a in range(256):
         one(bytes([a]))
+    # the same byte string held in the other containers the library itself and applications pass around
+    for n in (0, 1, 2, 7, 40):
+        data = bytes(r.randrange(256) for _ in range(n))
+        for name, conv in (('bytearray', bytearray), ('memoryview', memoryview), ('memoryview of bytearray', lambda b: memoryview(bytearray(b))), ('list of ints', list), ('tuple of ints', tuple)):
+            run.count('checksum_comparisons', 2)
+            c = ADU.crc16(data)
+            want = ((c & 0xFF) << 8) | (c >> 8)
+            try:
+                ok = (computeCRC(conv(data)) == want and checkCRC(conv(data), want) and computeLRC(conv(data)) == ADU.lrc(data) and checkLRC(conv(data), ADU.lrc(data)))
+                why = 'result differs from the one for bytes'
+            except Exception as e:  # noqa
+                ok, why = False, 'raised %r' % (e,)
+            if not ok:
+                run.violation('checksum-container:%s' % name, {'op': 'checksum', 'data': data}, 'checksum functions on a %s holding %s: %s' % (name, data.hex(), why))
     if run.mine(0):
         step = 1 if run.thorough else 7
         for v in range(0, 65536, step):
